@@ -98,9 +98,9 @@ TEXT['C19'] = dict(
 _PB = 'contract-based deductive verification (full-mode contracts on the real ASTs, z3; frame contracts) + bounded run-time check for the clauses resting on library semantics'
 for _pid, _t in {
     'C04': 'Percentile-of-the-look-back-tail, floor coding, table order and the per-set selection of member hits (ceilometer exclusion with its per-set fall-back; one base-routine call per table row, result stored in that row) are proved on the real code; the time ordering of the pinned pandas selection expression and the statistics / fluffiness are recomputed natively on a scene grammar (bounded).',
-    'C05': 'Frame proof that no stage touches the hit columns, proof of the MSA cropping at construction, proof that find_slices gives exactly the valid hits a slice id (labels by the assumed clustering contract), lemma that generated layer ids cannot collide; the same id clause for groups and layers is bounded.',
-    'C06': 'Bin lookup, percentile routine, the shared base routine and the merge loop of _merge_close_groups (invariant: the too-close flags are those of the current table; termination; on exit adjacent groups are separated; every merge recomputes all bases through the shared routine) proved; the mixture re-merge pass is outside the contracts and the reported separations are checked natively on targeted scenes (bounded).',
-    'C08': 'Every raise is AmpycloudError (syntactic), all partial operations in the functions under contract are proved safe; totality of third-party code and of the stage bodies is explored on valid scenes only (bounded).',
+    'C05': 'Frame proof that no stage touches the hit columns, proof of the MSA cropping at construction, proof that find_slices gives exactly the valid hits a slice id (labels by the assumed clustering contract), lemma that generated layer ids cannot collide, block contract of the re-merge pass of ncomp_from_gmm (labels in range, count = distinct labels; mixture fit assumed); the same id clause for groups and layers is bounded.',
+    'C06': 'Bin lookup, percentile routine, the shared base routine and the merge loop of _merge_close_groups (invariant: the too-close flags are those of the current table; termination; on exit adjacent groups are separated; every merge recomputes all bases through the shared routine) proved; helpers of the grouping / layering loops leave their arguments unmodified (frame obligations); the re-merge pass of ncomp_from_gmm is verified from the computation of the component bases on (block contract, mixture fit assumed): nothing re-merged => component bases at least min_sep apart; the mixture re-merge pass is outside the contracts and the reported separations are checked natively on targeted scenes (bounded).',
+    'C08': 'Every raise is AmpycloudError (syntactic), every local is assigned before it is read (definite-assignment analysis of all functions), all partial operations in the functions under contract are proved safe; totality of third-party code and of the stage bodies is explored on valid scenes only (bounded).',
     'C10': 'MSA cropping proved for arbitrary index labels (true pandas label semantics), frame obligations on positional access and index normalisation; equality of outcomes under relabelling is bounded.',
     'C16': 'Syntactic flow proof that names are used as labels only; the relation between two renamed runs is checked natively (bounded).',
 }.items():
